@@ -101,7 +101,22 @@ func lookupWellKnown(ctx context.Context, serverNameType spec.ServerName, dial d
 	// According to RFC7234 section 5.3, Cache-Control with max-age directive
 	// MUST be preferred to Expires header.
 	if cacheControlHeader != "" {
-		kvPairs := strings.Split(cacheControlHeader, ",")
+		// The directives are separated by commas; a comma inside the
+		// quoted-string argument of a directive is part of that argument.
+		var kvPairs []string
+		inQuotes, start := false, 0
+		for i := 0; i < len(cacheControlHeader); i++ {
+			switch cacheControlHeader[i] {
+			case '"':
+				inQuotes = !inQuotes
+			case ',':
+				if !inQuotes {
+					kvPairs = append(kvPairs, cacheControlHeader[start:i])
+					start = i + 1
+				}
+			}
+		}
+		kvPairs = append(kvPairs, cacheControlHeader[start:])
 		for _, keyValuePair := range kvPairs {
 			keyValuePair = strings.Trim(keyValuePair, " \t")
 			pieces := strings.SplitN(keyValuePair, "=", 2)
@@ -109,6 +124,10 @@ func lookupWellKnown(ctx context.Context, serverNameType spec.ServerName, dial d
 				// max-age is the (maximum) number of seconds this record can
 				// be assumed to live
 				stringValue := pieces[1]
+				if len(stringValue) >= 2 && strings.HasPrefix(stringValue, "\"") && strings.HasSuffix(stringValue, "\"") {
+					// the quoted-string form of the argument
+					stringValue = stringValue[1 : len(stringValue)-1]
+				}
 				age, err := strconv.ParseInt(stringValue, 10, 64)
 				if numErr, ok := err.(*strconv.NumError); ok && numErr.Err == strconv.ErrRange && !strings.HasPrefix(stringValue, "-") {
 					// more seconds than fit: as long as can be expressed
